@@ -548,6 +548,12 @@ impl Compiler<'_, '_, '_, '_> {
 // We also require that `extra_v` is None, since otherwise the user might have
 // additional values stashed somewhere.
 pub(crate) fn possible_gc(eval: &mut Evaluator) {
+    // The reasoning above only holds for the outermost evaluation. When a native function calls
+    // `eval_module` on the evaluator it was given, the frames suspended below it hold roots we
+    // do not know about (bytecode temporaries, loop iterators): never collect there.
+    if eval.call_stack_count() > 1 {
+        return;
+    }
     #[cfg(starlark_verif)]
     if crate::verif::safepoint_forces_gc() && !eval.disable_gc {
         // Same safety argument as below: we are at a module-level safepoint.
